@@ -101,14 +101,8 @@ def diagnose(case):
 def judge(chk, cases, label):
     """Run the batch through TLC; record violations.  Returns the set of bad case indices."""
     bad = {}
-    CH = 4000
-    for off in range(0, len(cases), CH):
-        chunk = cases[off:off + CH]
-        path = tlc.write_cases(chunk)
-        res = tlc.run_tlc("Sched", env={"CASES": path}, timeout=1800)
-        chk.add_tlc(res)
-        for t in res.tagged("BAD"):
-            bad.setdefault(off + t[1] - 1, set()).add(t[2])
+    for t in tlc.judge_batch("Sched", cases, chunk=1000, workers=2, chk=chk)["BAD"]:
+        bad.setdefault(t[1], set()).add(t[2])
     for k in sorted(bad):
         case = cases[k]
         cats = diagnose(case)
